@@ -95,6 +95,25 @@ impl<'a> Gen<'a> {
             line.push_str(" ; ");
             line.push_str(&p.script);
         }
+        if stream == "stream6_out_of_domain" {
+            // twin line: all results as raw, `S any` (differences between model and implementation outside the domain
+            // are counted by `check`, never a verdict)
+            let mut twin = String::with_capacity(line.len() + 8);
+            match line.find(" ; ") {
+                Some(k) => {
+                    twin.push_str(&line[..k]);
+                    twin.push_str(" full");
+                    twin.push_str(&line[k..]);
+                }
+                None => {
+                    twin.push_str(&line);
+                    twin.push_str(" full");
+                }
+            }
+            (self.emit)(twin);
+            self.bump("lines_total");
+            self.bump("stream6_full_twins");
+        }
         (self.emit)(line);
         self.bump("lines_total");
         self.bump(stream);
@@ -861,7 +880,12 @@ pub fn group(rng: &mut SplitMix64, items: &[It]) -> Vec<Op> {
 
 pub fn gen(args: &Args, emit: &mut dyn FnMut(String), st: &mut Stats) {
     let thorough = args.tier == "thorough";
-    let buf: usize = args.extra.get("buf").and_then(|s| s.parse().ok()).filter(|b| *b >= 1).unwrap_or(65536);
+    // `--buf N`: the constant extracted from the source text; `--buf auto` (or nothing): learn it from the running code
+    let observed = crate::observed_buf();
+    let extracted: Option<usize> = args.extra.get("buf").and_then(|s| s.parse().ok()).filter(|b| *b >= 1);
+    let buf: usize = extracted.unwrap_or(if observed >= 1 { observed } else { 65536 });
+    st.add("buf_observed_first_read_slice", observed as u64);
+    st.add(if extracted.is_some() { "buf_from_source_text" } else { "buf_from_observation" }, 1);
     let mut rng = SplitMix64::new(args.seed ^ 0xC08);
     let mut g = Gen { emit, cnt: BTreeMap::new(), atom_cnt: [0; 14], buf };
     crate::streams::stream_small(&mut g, &mut rng, thorough);
